@@ -276,6 +276,14 @@ impl Engine for C05 {
         // states: the root is drawn, every other version evolves from its tree parent
         let mut root = gen_mapset(&mut w, &cfg);
         root.ns = vec!["intermediary".into(), "named".into()];
+        if w.chance(12) {
+            // twin inner classes: two outer classes whose inner classes carry the same simple names and have inner
+            // classes of their own (Alpha$Builder$Stage next to Beta$Builder$Stage): missed seeded change C05-9
+            let twin = *w.pick(&["Builder", "Entry", "Node"]);
+            for (k, n) in [("tw/A", "tw/Alpha"), ("tw/B", "tw/Beta"), ("tw/A$x", twin), ("tw/B$x", twin), ("tw/A$x$y", "Stage"), ("tw/B$x$y", "Stage")] {
+                root.classes.insert(k.to_string(), ClassM { names: vec![Some(n.to_string())], ..Default::default() });
+            }
+        }
         fix_state(&mut root, &mut w);
         let mut states = vec![root];
         let mut edges: Vec<Edge> = vec![];
